@@ -1960,7 +1960,8 @@ def run(ck: Ck) -> None:
     ok_f = ck.translate('RotFormulas_gen', tr.translate_formulas)
     ok_d = ck.translate('RotDispatch_gen', tr.translate_dispatch)
     ok_i = ck.translate('RotInverse_gen', tri.translate_inverse)
-    ok_r = ok_f and ck.translate('RotReified_gen', tr.translate_reified)
+    # not gated on ok_f: when the formula model cannot express today's code, the reified pieces are still read (tolerant mode)
+    ok_r = ck.translate('RotReified_gen', tr.translate_reified)
     ok_rr = ok_f and ck.translate('RotRounded_gen', trr.translate_rounded)
     ok_ip = ck.translate('RotInplace_gen', trp.translate_inplace)
     ok_im = ok_f and ok_d and ck.translate('RotMethods_gen', trp.translate_methods)
@@ -2169,6 +2170,11 @@ def run(ck: Ck) -> None:
         ck.explain('instance:state_')
         ck.explain('translate:RotState_gen')
         ck.explain('correspondence:state-census')
+    if any(k.startswith(('conversion:to_matrix', 'history:to_matrix', 'history-result-changed:to_matrix')) for k in keys):
+        # Vec.localise goes through to_matrix(): a to_matrix the method executor cannot read AND a concrete wrong to_matrix result
+        for o in ck.obligations:
+            if not o['ok'] and o['name'] == 'translate:RotMethods_gen' and 'to_matrix' in o['detail']:
+                o['explained'] = True
     if any(k.startswith('conversion:') for k in keys):
         ck.explain('translate:RotCopies_gen')
         ck.explain('instance:matrix_copies_')
